@@ -15,6 +15,8 @@ import traceback
 
 VERIF = os.path.dirname(os.path.dirname(os.path.abspath(__file__)))
 SRC = os.environ.get("VERIF_BARRIL_SRC", "/repo/src")
+# runs against a scratch copy (mutant demos) must not overwrite the evidence / replays of /repo
+OUT = VERIF if os.path.abspath(SRC) == "/repo/src" else os.environ.get("VERIF_SCRATCH_OUT", "/var/tmp/verif-scratch")
 MAX_REPLAYS = 12  # replay files written per run (every violation is still counted)
 MAX_KEPT = 400  # violation records kept in memory per part
 
@@ -208,7 +210,7 @@ def finish(ctx, wall):
     for kid, (k, n) in sorted(seen_known.items()):
         print("KNOWN-FINDING: property=%s %s: %s (%d cases this run)" % (ctx.prop_id, kid, k["what"], n))
 
-    replay_dir = os.path.join(VERIF, "replays")
+    replay_dir = os.path.join(OUT, "replays")
     os.makedirs(replay_dir, exist_ok=True)
     # remove stale replays of this property
     for fn in os.listdir(replay_dir):
@@ -287,8 +289,8 @@ def finish(ctx, wall):
         "wall_s": round(wall, 3),
         "violations": int(n_new),
     }
-    os.makedirs(os.path.join(VERIF, "evidence"), exist_ok=True)
-    with open(os.path.join(VERIF, "evidence", ctx.prop_id + ".json"), "w") as f:
+    os.makedirs(os.path.join(OUT, "evidence"), exist_ok=True)
+    with open(os.path.join(OUT, "evidence", ctx.prop_id + ".json"), "w") as f:
         json.dump(evidence, f, indent=1, sort_keys=True)
     print(
         "%s %s seed=%d: evaluations=%d nontrivial=%d outcomes=%d states=%s transitions=%s known=%d violations=%d wall=%.1fs"
